@@ -251,13 +251,14 @@ class HashedSuite(Suite):
     runf = "run09h"
     deterministic = True
     rule = ("non-specific digestion (no_enzyme) of 1-5 records; lookups of substrings that occur in one / several / no "
-            "protein, inside and outside the length window; non-trivial = the peptide occurs in >= 2 proteins")
+            "protein, inside and outside the length window, windows starting below / at / above the length of the hash key (6); non-trivial = the peptide occurs in >= 2 proteins")
 
     def gen(self, rng, tier):
         for _ in range(core.tier_n(tier, 250, 5000)):
             text, recs = gen_fasta_text(rng, n=rng.randint(1, 4), ids=[f"P{i}" for i in range(5)])
             text += ">TWIN1\nGGGGAAAACCCCDDDD\n>TWIN2\nTTTAAAACCCCDDDDEE\n"
-            mn, mx = rng.choice([(6, 10), (7, 12), (8, 8)])
+            # windows on both sides of the length of the hash key (6): shorter peptides are their own key
+            mn, mx = rng.choice([(6, 10), (7, 12), (8, 8), (3, 8), (5, 12), (4, 6), (1, 4)])
             seqs = [s for _, s in recs] + ["GGGGAAAACCCCDDDD", "TTTAAAACCCCDDDDEE"]
             s = rng.choice(seqs)
             ln = rng.choice([mn, mx, mn - 1, mx + 1, (mn + mx) // 2])
